@@ -1226,3 +1226,9 @@ func Recv[T any](ch <-chan T) (T, bool) {
 		}
 	}
 }
+
+// Recv1 is `<-ch` in an expression position.
+func Recv1[T any](ch <-chan T) T {
+	v, _ := Recv(ch)
+	return v
+}
